@@ -62,7 +62,7 @@ CHECKS = {
              "minimum of 3); on success decode(encode(v)) == v. TestC04_Concurrent: 1..5 mutated inputs (always one stat record whose size field claims more than the "
              "input holds) are decoded once alone, then 2..8 goroutines decode them again together with valid messages and records on the shared codec (DecodeDir also "
              "through a one-byte reader): no panic, every outcome equals the outcome of the same input alone, valid inputs decode to the reference value. "
-             "Non-trivial = input differs from the valid encoding and is longer than 3 bytes.",
+             "One input in six is a shape a decoder accepts but an encoder never produces from ordinary values: a stat record filled by its strings up to size-field values 65532..65535 (the outer size of Rstat/Twstat wraps), or a directory entry whose name ends in '/', '//', '/.', '/..' - with 0..3 further mutations. Non-trivial = input differs from the valid encoding and is longer than 3 bytes.",
         assumptions=["allocation is measured with runtime.MemStats.TotalAlloc around the single decode call, in a process that runs nothing else",
                      "the bound 256 KiB + 96*len is the weakest reading of 'small constant plus linear'; TestC04_AllocRatio re-validates on every run that the densest valid inputs (ratio ~26) stay inside it"],
     ),
@@ -94,7 +94,7 @@ CHECKS = {
              "frames (they belong to the one enormous frame: no message may be delivered from them). TestC03_Wait: 1..6 well-formed frames, up to 3 of them read by a ReadFcall "
              "that is already waiting (0..7 bytes of the frame present) when its context is cancelled, the rest of the frame arriving afterwards: the read may return the message "
              "or an error, but then the next read must deliver that frame (no frame lost, order kept). "
-             "Non-trivial = a non-first frame follows a frame of a different class, or reads split the length prefix, or a read was cancelled while waiting.",
+             "One frame class in ten is a well-formed Rstat/Twstat whose stat record is 1..30 bytes longer than its known fields (both size fields consistent): it must be delivered as its message. Non-trivial = a non-first frame follows a frame of a different class, or reads split the length prefix, or a read was cancelled while waiting.",
         require_classes=dict(quick=["f_valid", "f_fill", "f_oversize", "f_garbage", "f_short", "f_tiny", "f_badprefix", "f_cutstream", "f_cutoversize", "f_hugeprefix", "split_prefix", "after_setmsize", "setmsize_between_reads"], thorough=[]),
         assumptions=["after an impossible length prefix (0..3) or a premature end of stream nothing further is asserted (the position of the next frame is undefined)",
                      "the reference decoder (refwire.Decode) defines which bodies are decodable; it agrees with the library on millions of fuzzed inputs (C01 FuzzDecodeVsRef)"],
@@ -152,7 +152,7 @@ CHECKS = {
              "and end to end CFileSys(CSession) <-> ServeConn with the negotiated msize forced to a generated value (1 case in 4: one iterator call is made with an already cancelled context and the caller "
              "carries on; 1 in 10: an entry whose encoding is within 24 bytes of msize 65536). Oracle: the reference "
              "encoder's stat records concatenated in listing order; every reply is a run of whole entries, at most count bytes, empty iff everything was delivered. "
-             "Non-trivial = at least 2 entries and at least 2 non-empty reads (an entry boundary met a buffer boundary).",
+             "Two read buffers in three are windows into a larger buffer (spare capacity filled with a sentinel): the reply must respect len(p) and leave what lies behind it alone. Non-trivial = at least 2 entries and at least 2 non-empty reads (an entry boundary met a buffer boundary).",
         require_classes=dict(quick=["multi_read", "empty_listing", "wrong_offset_rejected", "level1", "level2", "level3", "end_nil", "end_empty", "end_eof", "iterator_call_cancelled", "entry_within_24_of_max_msize"], thorough=[]),
         assumptions=["every read count is at least the largest encoded entry, as the property states", "the underlying iterator returns no errors"],
     ),
@@ -170,8 +170,11 @@ CHECKS = {
              "locked or half-bound at quiescence; the whole invocation/return history with every recorded result (error class, qids, data, counts, stat fields) is linearizable "
              "w.r.t. a pure re-statement of the C08 reference model plus the mock's tree (porcupine, 10 s search budget per history; class lin_checked; lin_tainted = the "
              "explanation passed through a state the property text leaves undetermined; lin_budget_exhausted = inconclusive for that history); race detector. "
+             "One case in six contains crossing walks (a -> b in one goroutine, b -> a in another, both shared fids, a third request on a) and one in six a create of a directory that "
+             "then cannot be opened (which unbinds the fid) with a request on the same fid in every other goroutine; the mock must never see a call on an entry the session has released, nor a second "
+             "release, except the clunk of the consumed parent in exactly that unspecified corner. "
              "Non-trivial = two operations on the same fid overlapped in real time.",
-        require_classes=dict(quick=["same_fid_overlap", "gated", "free_running", "lin_checked"], thorough=[]),
+        require_classes=dict(quick=["same_fid_overlap", "gated", "free_running", "lin_checked", "crossing_walks"], thorough=[]),
         assumptions=["clients never allocate the same new fid from two requests at once (the property's proviso)",
                      "interleavings are controlled at file-system-call granularity plus whatever the Go scheduler adds; race freedom is 'no report on the explored runs'"],
     ),
@@ -204,8 +207,8 @@ CHECKS = {
              "the target's handler is released right before or right after the Tflush is written (racing it) or only later (late completion); handlers that honour cancellation and "
              "handlers that ignore it; new requests deliberately reuse the tag of a flushed request whose handler is still running, and that handler then completes late. Oracle after the "
              "flush acknowledgement was read: handler context done; no frame carrying the flushed request's marker ever arrives; the request reusing the tag gets exactly one reply with "
-             "its own marker; every Tflush gets exactly one reply. Non-trivial = a flush of an outstanding tag whose handler completes after the flush was sent.",
-        require_classes=dict(quick=["late_completion_after_flush", "reuse_while_running", "flush_parked_handler", "release_just_after_flush", "release_just_before_flush", "flush_answered", "flush_unused", "flush_before_handler_start"], thorough=[]),
+             "its own marker; every Tflush gets exactly one reply. A quarter of the late completions of flushed requests return a result larger than msize (an Rread with msize bytes of data): it must vanish like any other. Non-trivial = a flush of an outstanding tag whose handler completes after the flush was sent.",
+        require_classes=dict(quick=["late_completion_after_flush", "reuse_while_running", "flush_parked_handler", "release_just_after_flush", "release_just_before_flush", "flush_answered", "flush_unused", "flush_before_handler_start", "late_oversize_completion_after_flush"], thorough=[]),
         assumptions=["a reply to the flushed request that arrives before the flush acknowledgement is allowed",
                      "the type of the reply to a flush of a non-outstanding tag (Rflush or Rerror) is not asserted",
                      "the exact instant at which a handler completes relative to the flush being processed is chosen by the Go scheduler; the generator forces both orders and the concurrent burst"],
@@ -280,8 +283,8 @@ CHECKS = {
              "hands over at most 1..7 bytes per Read in both directions; negotiated msize forced to 128..65535 by rewriting the client's Tversion in flight. "
              "Oracle: S received exactly the caller's arguments and the caller exactly S's results up to the documented limits (read/write clipped to msize-11/msize-23, ErrShortWrite, whole-second "
              "times, >16 names refused locally, 0-byte read may surface as io.EOF, errors by text). Concurrent: 2..4 (rendezvous) / 2..32 (buffered) callers x 1..12 calls whose results derive from the "
-             "fid; each caller must get its own result and some call must complete at least every 5 s until all have. Non-trivial = a call with non-zero fid whose S-side result is a success; distinct by case hash.",
-        require_classes=dict(quick=["m_" + m for m in "auth attach clunk remove walk read write open create stat wstat".split()] + ["clipped_to_msize", "session_error", "error_with_partial_count", "transport_in_small_pieces", "conc_with_abandoned_calls", "conc_rendezvous", "conc_buffered", "d14_probe"], thorough=[]),
+             "fid; each caller must get its own result and some call must complete at least every 5 s until all have; 0..3 (rendezvous: 0..1) pairs of callers meet on a pipe fid, where S's Read returns only what a Write on the same fid hands over (and that Write only returns once it has been taken). Non-trivial = a call with non-zero fid whose S-side result is a success; distinct by case hash.",
+        require_classes=dict(quick=["m_" + m for m in "auth attach clunk remove walk read write open create stat wstat".split()] + ["clipped_to_msize", "session_error", "error_with_partial_count", "transport_in_small_pieces", "conc_with_abandoned_calls", "conc_rendezvous", "conc_buffered", "conc_read_waits_for_write_on_same_fid", "d14_probe"], thorough=[]),
         assumptions=["arguments are generated so that every request and reply other than read/write data fits in msize (messages that do not fit are C02's business)",
                      "known finding D14: >= 5 concurrent callers over a zero-buffer connection wedge; the generator stays below that on rendezvous connections and a separate probe (16 callers x 100 calls) reports it"],
     ),
